@@ -2437,6 +2437,8 @@ enum VtState {
 }
 
 pub static INSTALLED: Mutex<Option<bool>> = Mutex::new(None);
+/// which spelling of the configuration this process uses (set from the worker number)
+pub static CONFIG_ROUTE: std::sync::atomic::AtomicU8 = std::sync::atomic::AtomicU8::new(0);
 
 /// Install the reporter for the api engine (at most once per configuration per process).
 pub fn ensure_reporter_api(cancelable: bool) {
@@ -2445,12 +2447,17 @@ pub fn ensure_reporter_api(cancelable: bool) {
         return;
     }
     let before = REPORT_CALLS.load(Ordering::SeqCst);
-    fastrace::set_reporter(
-        SinkReporter,
-        Config::default()
-            .report_interval(std::time::Duration::from_secs(3600))
-            .cancelable(cancelable),
-    );
+    // the configuration is built along every route the API offers: `cancelable()` or its
+    // deprecated spelling, with or without the deprecated (documented as no-op) span limit, options
+    // in either order; which one depends on the worker, so every route is used in every run
+    #[allow(deprecated)]
+    let cfg = match CONFIG_ROUTE.load(Ordering::SeqCst) % 4 {
+        0 => Config::default().report_interval(std::time::Duration::from_secs(3600)).cancelable(cancelable),
+        1 => Config::default().report_before_root_finish(cancelable).report_interval(std::time::Duration::from_secs(3600)),
+        2 => Config::default().cancelable(!cancelable).max_spans_per_trace(Some(2)).report_interval(std::time::Duration::from_secs(3600)).cancelable(cancelable),
+        _ => Config::default().max_spans_per_trace(None).report_interval(std::time::Duration::from_secs(1)).report_interval(std::time::Duration::from_secs(3600)).report_before_root_finish(!cancelable).cancelable(cancelable),
+    };
+    fastrace::set_reporter(SinkReporter, cfg);
     if cfg!(feature = "enable") {
         // wait for the background thread's initial (empty) report
         let start = std::time::Instant::now();
